@@ -254,7 +254,8 @@ EXPORT errno_t _wcsncat_s_chk(wchar_t *restrict dest, rsize_t dmax,
         }
 
         while (dmax > 0) {
-            if (unlikely(src == overlap_bumper)) {
+            /* src reaching dest is an overlap only if another element is read */
+            if (unlikely(src == overlap_bumper && slen != 0)) {
                 handle_werror(orig_dest, orig_dmax,
                               "wcsncat_s: "
                               "overlapping objects",
